@@ -41,6 +41,7 @@ func checkC17(c *Ctx) {
 	}
 	c17Loop(c, exec, classify)
 	c17Waits(c, exec)
+	c17CheckBeforeAttempt(c, exec)
 	c17Clamp(c, validate)
 	c17Table(c)
 	c17Options(c, validate)
@@ -48,6 +49,7 @@ func checkC17(c *Ctx) {
 	c17NoTransportReplay(c)
 	c17TypedErrorsWrapped(c, classify)
 	c17NoNestedRetry(c, exec)
+	c17OneSendPerAttempt(c, exec)
 }
 
 // fieldLoadNamed: v is a load of field `name` (of any struct).
@@ -1590,4 +1592,288 @@ func retryOps(c *Ctx, exec *ssa.Function) []retryOp {
 	collect(exec, -1, 0)
 	sort.Slice(out, func(i, j int) bool { return out[i].site.Pos() < out[j].site.Pos() })
 	return out
+}
+
+// c17OneSendPerAttempt (R-attempt-bound): the bound "MaxRetries+1 sends, a wait between any two" counts attempts of the
+// retry executor, so one attempt must put one HTTP request on the wire. In every library function an attempt runs
+// through, a call that sends (net/http's Client.Do / RoundTrip, or a library function that reaches one) is not inside a
+// loop and is not followed by another one on the same path: a resend hidden below the executor doubles the sends and
+// happens without any wait.
+func c17OneSendPerAttempt(c *Ctx, exec *ssa.Function) {
+	isWire := func(call ssa.CallInstruction) bool {
+		switch ir.CallName(call) {
+		case "(*net/http.Client).Do", "(net/http.RoundTripper).RoundTrip", "(*net/http.Transport).RoundTrip",
+			"(*net/http.Client).Post", "(*net/http.Client).Get", "(*net/http.Client).PostForm", "(*net/http.Client).Head":
+			return true
+		}
+		return false
+	}
+	var ops []*ssa.Function
+	for _, ro := range retryOps(c, exec) {
+		ops = append(ops, ro.op)
+	}
+	if len(ops) == 0 {
+		c.R.Break("R-attempt-bound: no retried operation found")
+		return
+	}
+	reach := c.ReachSync(ops...)
+	// senders: functions of an attempt from which a wire call is reachable
+	sends := map[*ssa.Function]bool{}
+	for fn := range reach {
+		if !c.P.IsLib(fn) {
+			continue
+		}
+		ir.EachCall(fn, func(call ssa.CallInstruction) {
+			if isWire(call) {
+				sends[fn] = true
+			}
+		})
+	}
+	if len(sends) == 0 {
+		c.R.Break("R-attempt-bound: no call of net/http's Client.Do reachable from a retried operation")
+		return
+	}
+	for changed := true; changed; {
+		changed = false
+		for fn := range reach {
+			if sends[fn] || !c.P.IsLib(fn) {
+				continue
+			}
+			ir.EachCall(fn, func(call ssa.CallInstruction) {
+				if _, isGo := call.(*ssa.Go); isGo {
+					return
+				}
+				for _, cal := range ir.Callees(c.G, call) {
+					if sends[cal] && !sends[fn] {
+						sends[fn] = true
+						changed = true
+					}
+				}
+			})
+		}
+	}
+	// the request a send puts on the wire, followed back through WithContext / Clone and parameters of the function
+	var reqRoot func(v ssa.Value, d int) ssa.Value
+	reqRoot = func(v ssa.Value, d int) ssa.Value {
+		if d > 8 {
+			return v
+		}
+		switch x := v.(type) {
+		case *ssa.Call:
+			switch ir.CallName(x) {
+			case "(*net/http.Request).WithContext", "(*net/http.Request).Clone":
+				return reqRoot(x.Call.Args[0], d+1)
+			}
+		case *ssa.Phi:
+			var root ssa.Value
+			for _, e := range x.Edges {
+				r := reqRoot(e, d+1)
+				if root != nil && r != root {
+					return v
+				}
+				root = r
+			}
+			if root != nil {
+				return root
+			}
+		case *ssa.UnOp:
+			if u := unspill(x); u != ssa.Value(x) {
+				return reqRoot(u, d+1)
+			}
+		}
+		return v
+	}
+	reqArg := func(call ssa.CallInstruction) ssa.Value {
+		for _, a := range call.Common().Args {
+			if ir.TypeStr(a.Type()) == "*net/http.Request" {
+				return reqRoot(a, 0)
+			}
+		}
+		return nil
+	}
+	n := 0
+	for _, fn := range sortedFuncs(sends) {
+		type site struct {
+			call ssa.CallInstruction
+			req  ssa.Value
+		}
+		var sites []site
+		ir.EachCall(fn, func(call ssa.CallInstruction) {
+			if _, isGo := call.(*ssa.Go); isGo {
+				return
+			}
+			if _, isDefer := call.(*ssa.Defer); isDefer {
+				return
+			}
+			if isWire(call) {
+				sites = append(sites, site{call, reqArg(call)})
+				return
+			}
+			for _, cal := range ir.Callees(c.G, call) {
+				if sends[cal] && cal != fn {
+					sites = append(sites, site{call, reqArg(call)})
+					return
+				}
+			}
+		})
+		for i, s := range sites {
+			n++
+			bad := ""
+			if flow.InCycle(s.call.Block()) {
+				// a loop may send different requests; the same one when the request is made outside the loop
+				made, ok := s.req.(ssa.Instruction)
+				if s.req == nil || !ok || !sameLoop(made.Block(), s.call.Block()) {
+					bad = "inside a loop, again and again the same request"
+				}
+			}
+			for j, t := range sites {
+				if i != j && s.req != nil && t.req == s.req && flow.Reaches(t.call, s.call) {
+					bad = sprintf("a second time, after the send at %s on the same path", c.Pos(t.call.Pos()))
+				}
+			}
+			c.R.Check(bad == "", "R-attempt-bound", sprintf("send #%d of one attempt in %s", i+1, fname(fn)), c.Pos(s.call.Pos()),
+				"a request is sent once per attempt: not re-sent in a loop, not sent again later on the path",
+				sprintf("%s, which an attempt of the retry executor runs through, sends the HTTP request %s: one attempt puts the call on the wire more than once, so it is sent more often than MaxRetries+1 times (twice without any retry configured) and the extra sends are not separated by a backoff wait", fname(fn), bad))
+		}
+	}
+	if n < 3 {
+		c.R.Break("R-attempt-bound: only %d sending call sites found below the retried operations", n)
+	}
+}
+
+// c17CheckBeforeAttempt (R-cancel): "cancelling the caller's context ends the sequence at once" — no attempt of the
+// retry loop is started without looking at the context first. Every path to the in-loop operation call from the
+// function's entry, and from every wait (a blocking select: when timer and Done are ready together select may take the
+// timer), passes a context check: a non-blocking select with an arm on ctx.Done(), or a ctx.Err() test — in the
+// executor itself or in a helper it hands its context to.
+func c17CheckBeforeAttempt(c *Ctx, exec *ssa.Function) {
+	var ctxParam, op *ssa.Parameter
+	for _, p := range exec.Params {
+		if ir.TypeStr(p.Type()) == "context.Context" {
+			ctxParam = p
+		}
+		if sig, ok := p.Type().Underlying().(*types.Signature); ok && sig.Params().Len() == 0 && sig.Results().Len() == 1 {
+			op = p
+		}
+	}
+	if ctxParam == nil || op == nil {
+		return // reported by the loop rule
+	}
+	checksCtx := func(fn *ssa.Function, ctxv ssa.Value, in ssa.Instruction) bool {
+		switch x := in.(type) {
+		case *ssa.Select:
+			if x.Blocking {
+				return false
+			}
+			for _, st := range x.States {
+				if oc := originCall(st.Chan); oc != nil && ir.CallName(oc) == "(context.Context).Done" && oc.Call.Value == ctxv {
+					return true
+				}
+			}
+		case *ssa.Call:
+			if ir.CallName(x) == "(context.Context).Err" && x.Call.Value == ctxv {
+				return true
+			}
+		}
+		return false
+	}
+	isCheck := func(in ssa.Instruction) bool {
+		if checksCtx(exec, ctxParam, in) {
+			return true
+		}
+		call, ok := in.(*ssa.Call)
+		if !ok {
+			return false
+		}
+		sc := ir.StaticCallee(call)
+		if sc == nil || !c.P.IsLib(sc) {
+			return false
+		}
+		var hctx ssa.Value
+		for i, a := range call.Call.Args {
+			if a == ssa.Value(ctxParam) && i < len(sc.Params) {
+				hctx = sc.Params[i]
+			}
+		}
+		if hctx == nil {
+			return false
+		}
+		found := false
+		ir.EachInstr(sc, func(_ *ssa.BasicBlock, _ int, in2 ssa.Instruction) {
+			if checksCtx(sc, hctx, in2) {
+				found = true
+			}
+		})
+		return found
+	}
+	var oc *ssa.Call
+	ir.EachInstr(exec, func(_ *ssa.BasicBlock, _ int, in ssa.Instruction) {
+		if call, ok := in.(*ssa.Call); ok && call.Call.Value == ssa.Value(op) && flow.InCycle(call.Block()) {
+			oc = call
+		}
+	})
+	if oc == nil {
+		return
+	}
+	checkBlocks := map[*ssa.BasicBlock]bool{}
+	inOwnBlock := false
+	ir.EachInstr(exec, func(b *ssa.BasicBlock, i int, in ssa.Instruction) {
+		if !isCheck(in) {
+			return
+		}
+		if b == oc.Block() {
+			if flow.Reaches(in, oc) && in.Block() == oc.Block() && flow.LocOf(in).I < flow.LocOf(oc).I {
+				inOwnBlock = true
+			}
+			return
+		}
+		checkBlocks[b] = true
+	})
+	// starting points: the entry, and the continuation of every wait (blocking select / blocking helper)
+	type start struct {
+		what string
+		from []*ssa.BasicBlock
+		pos  token.Pos
+	}
+	starts := []start{{"the function's entry", []*ssa.BasicBlock{exec.Blocks[0]}, exec.Pos()}}
+	ir.EachInstr(exec, func(b *ssa.BasicBlock, _ int, in ssa.Instruction) {
+		blocking := false
+		switch x := in.(type) {
+		case *ssa.Select:
+			blocking = x.Blocking
+		case *ssa.Call:
+			if sc := ir.StaticCallee(x); sc != nil && c.P.IsLib(sc) && sc != exec {
+				ir.EachInstr(sc, func(_ *ssa.BasicBlock, _ int, in2 ssa.Instruction) {
+					if sel, ok := in2.(*ssa.Select); ok && sel.Blocking {
+						blocking = true
+					}
+				})
+			}
+		}
+		if blocking {
+			starts = append(starts, start{"the wait at " + c.Pos(in.Pos()), b.Succs, in.Pos()})
+		}
+	})
+	for i, s := range starts {
+		reached := false
+		if !inOwnBlock {
+			for _, f := range s.from {
+				if f == oc.Block() && !checkBlocks[f] {
+					reached = true
+				}
+				if checkBlocks[f] {
+					continue
+				}
+				if flow.BlocksReachableAvoiding(f, checkBlocks)[oc.Block()] {
+					reached = true
+				}
+			}
+		}
+		construct := "context checked before the first attempt"
+		if i > 0 {
+			construct = sprintf("context checked between wait #%d and the next attempt", i)
+		}
+		c.R.Check(!reached, "R-cancel", construct, c.Pos(oc.Pos()), "every path passes a non-blocking look at ctx.Done() / ctx.Err()",
+			sprintf("the retry loop can go from %s to the next call of the operation without looking at the caller's context: a call whose context is already cancelled (or is cancelled while the timer fires) still makes an attempt — another request is sent after the cancellation", s.what))
+	}
 }
